@@ -128,7 +128,7 @@ def floors(tier):
         "history:value_changed:single": 2000 * m,
         "history:value_changed:space": 500 * m,
         "history:value_changed:ext": 500 * m,
-        "history:value_changed:onehot_last_pos": 300 * m,
+        "history:value_changed:onehot_last_pos": 250 * m,
         "history:value_changed:int_last_pos": 1000 * m,
         "history:value_changed:float_last_pos": 500 * m,
         "history:value_changed:cat_last_pos": 300 * m,
@@ -1857,6 +1857,9 @@ def _space_histories(o, rng, S, by_name, hp_plain, viol):
         return
     # (a) a hyper-parameter of the space in the last position
     lastH = rng.choice(sorted(usable))
+    onehot = sorted(k for k, Dk in usable.items() if Dk.n > 1)
+    if onehot and rng.random() < 0.5:
+        lastH = rng.choice(onehot)  # several encoded dimensions pinned at once
     D = usable[lastH]
     others = {k: Dk for k, Dk in usable.items() if k != lastH}
     init = rng.choice([None, rng.choice(D.members_rt)])
